@@ -132,9 +132,10 @@ const (
 	gcBatchA    // batch add/remove A on all PC entities
 	gcRetarget  // A=slot, B=target slot (-1 zero)
 	gcReset
+	gcBatchRetarget // B=target slot (-1 zero): Batch.SetRelation on all {PC,R} entities
 )
 
-var gcOpNames = [...]string{"", "NewEntityWith(PC{&obj})", "NewEntity(PC)", "Set(PC{&obj})", "Get(PC).P = &obj", "Add/Remove(A)", "Remove(PC)", "Add(PC)", "RemoveEntity", "Batch.Add/Remove(All(PC), A)", "Relations.Set", "Reset"}
+var gcOpNames = [...]string{"", "NewEntityWith(PC{&obj})", "NewEntity(PC)", "Set(PC{&obj})", "Get(PC).P = &obj", "Add/Remove(A)", "Remove(PC)", "Add(PC)", "RemoveEntity", "Batch.Add/Remove(All(PC), A)", "Relations.Set", "Reset", "Batch.SetRelation(All(PC,R), R)"}
 
 func (c *gcCfg) OpKind(op wx.Op) string { return gcOpNames[op.K] }
 func (c *gcCfg) OpString(op wx.Op) string {
@@ -145,6 +146,8 @@ func (c *gcCfg) OpString(op wx.Op) string {
 		return gcOpNames[op.K]
 	case gcRetarget:
 		return fmt.Sprintf("Relations.Set(e%d, R, %d)", op.A, op.B)
+	case gcBatchRetarget:
+		return fmt.Sprintf("Batch.SetRelation(All(PC,R), R, %d)", op.B)
 	}
 	return fmt.Sprintf("%s on e%d", gcOpNames[op.K], op.A)
 }
@@ -241,6 +244,18 @@ func (r *gcRun) Enabled() []wx.Op {
 	}
 	if anyPC {
 		ops = append(ops, wx.Op{K: gcBatchA})
+	}
+	anyRel := false
+	for i := range r.ents {
+		anyRel = anyRel || r.ents[i].alive && r.ents[i].hasR && r.ents[i].hasPC
+	}
+	if anyRel {
+		ops = append(ops, wx.Op{K: gcBatchRetarget, B: -1})
+		for t := range r.ents {
+			if r.ents[t].alive && !r.ents[t].hasR {
+				ops = append(ops, wx.Op{K: gcBatchRetarget, B: int8(t)})
+			}
+		}
 	}
 	if n > 0 {
 		ops = append(ops, wx.Op{K: gcReset})
@@ -358,6 +373,17 @@ func (r *gcRun) Apply(op wx.Op) (res wx.Result) {
 			t = r.ents[op.B].h
 		}
 		w.Relations().Set(e.h, r.r, t)
+	case gcBatchRetarget:
+		t := ecs.Entity{}
+		if op.B >= 0 {
+			t = r.ents[op.B].h
+		}
+		w.Batch().SetRelation(ecs.All(r.pc, r.r), r.r, t)
+		for i := range r.ents {
+			if r.ents[i].alive && r.ents[i].hasR && r.ents[i].hasPC {
+				r.ents[i].target = op.B
+			}
+		}
 	case gcReset:
 		w.Reset()
 		for i := range r.ents {
@@ -903,6 +929,7 @@ func init() {
 		return []runner.Job{
 			job(scAny(&gcCfg{id: "c14-gc-k2", k: 2, rel: true}), pick(tier, 6, 9), 2),
 			job(scAny(&gcCfg{id: "c14-gc-k3", k: 3, rel: false}), pick(tier, 5, 7), 1),
+			job(scAny(&gcCfg{id: "c14-gc-k3-rel", k: 3, rel: true}), pick(tier, 5, 7), 1),
 			job(scAny(&gcCfg{id: "c14-gc-k2-zero-sized-first", k: 2, rel: false, zfirst: true}), pick(tier, 5, 7), 1),
 			job(scAny(&gcCfg{id: "c14-gc-k2-pointer-registered-last", k: 2, rel: true, pcLast: true}), pick(tier, 5, 7), 1),
 		}
